@@ -136,7 +136,11 @@ Definition interp_update (c : ictx) (tname expr : str) (it vals : item) (names :
                         end
                    else it0 in
         let it2 := if mem poke_marker set
-            then map (fun kv => match snd kv with AM m => (fst kv, AM (insert (bs "poked") (AS (bs "p")) m)) | _ => kv end) it1
+            then map (fun kv => match snd kv with
+                                | AM m => (fst kv, AM (insert (bs "poked") (AS (bs "p")) m))
+                                (* ... and into every map that is an element of a top-level list attribute *)
+                                | AL l => (fst kv, AL (map (fun e => match e with AM m => AM (insert (bs "poked") (AS (bs "p")) m) | _ => e end) l))
+                                | _ => kv end) it1
             else it1 in
         (* marker "@drop": the updater deletes the attribute the marker names *)
         Ok (match lookup drop_marker set with Some (AS n) => remove n it2 | _ => it2 end, [id])
